@@ -57,6 +57,9 @@ type Cfg struct {
 	// percentage of the traffic that goes to the peer that will be removed; the rest is spread over all peers
 	VictimShare int `json:"victim_share"`
 	// one in Forged inbound datagrams is preceded by a forged one (live receiver index, bad tag) for the same peer
+	// MTU of the simulated TUN (0 = 1420); one packet in ten has a size around or above it (mtu-1, mtu, mtu+1,
+	// mtu+17, 2*mtu): the device pads relative to the MTU it cached
+	MTU    int `json:"mtu"`
 	Forged int `json:"forged_one_in"`
 	// one in Junk inbound datagrams is preceded by a junk datagram for the same peer/socket: too short, unknown
 	// receiver index, unknown type, handshake message of a wrong length, replayed datagram, keepalive, authenticated
@@ -111,6 +114,9 @@ type Case struct {
 }
 
 func pktLen2(r *rand.Rand, c Cfg) int {
+	if c.MTU > 0 && r.Intn(10) == 0 {
+		return []int{c.MTU - 1, c.MTU, c.MTU + 1, c.MTU + 17, 2 * c.MTU, c.MTU - 16, c.MTU - 15}[r.Intn(7)]
+	}
 	if c.Huge {
 		return 1300 + r.Intn(100)
 	}
@@ -144,10 +150,10 @@ func runCase(c Cfg) Case {
 	var w *cosim.World
 	var err error
 	if c.RecvErrs > 0 {
-		w, err = cosim.NewWorldWrapped(cosim.Config{Up: true, BindBatch: c.BindBatch, TunBatch: c.TunBatch}, true,
+		w, err = cosim.NewWorldWrapped(cosim.Config{Up: true, BindBatch: c.BindBatch, TunBatch: c.TunBatch, MTU: c.MTU}, true,
 			func(b *sim.Bind) conn.Bind { fb = stress.NewFaultyBind(b); return fb }, peers...)
 	} else {
-		w, err = cosim.NewWorld(cosim.Config{Up: true, BindBatch: c.BindBatch, TunBatch: c.TunBatch}, true, peers...)
+		w, err = cosim.NewWorld(cosim.Config{Up: true, BindBatch: c.BindBatch, TunBatch: c.TunBatch, MTU: c.MTU}, true, peers...)
 	}
 	if err != nil {
 		panic(err)
@@ -986,6 +992,7 @@ func genCfg(r *rand.Rand, i int, pkts int) Cfg {
 	if i%2 == 0 {
 		c.Forged = []int{4, 10, 40}[r.Intn(3)]
 	}
+	c.MTU = []int{576, 1280, 1420, 1500}[r.Intn(4)]
 	if i%3 != 2 {
 		c.Junk = []int{3, 8, 25}[r.Intn(3)]
 	}
